@@ -267,7 +267,7 @@ fn c17(replay: Option<(usize, usize, usize, usize)>) -> (bool, String, String) {
 // ---- C01 / C02: small mixed-phase circuits; honest proofs verify, violated constraints are rejected ----
 /// k1 first-phase gates a_i*b_i with constraint o_i - c_i = 0 (c_i committed), k2 second-phase gates p_j*q_j (unconstrained),
 /// `alloc`: first-phase gates are built with allocate()/allocate() + a copy constraint instead of multiply()
-fn mixed_case(k1: usize, k2: usize, alloc: bool, viol: Option<(usize, i64, usize)>, cap: usize) -> Result<bool, String> {
+fn mixed_case(k1: usize, k2: usize, alloc: u8, viol: Option<(usize, i64, usize)>, cap: usize) -> Result<bool, String> {
     let pc = PedersenGens::<Affine>::default();
     let bp = BulletproofGens::<Affine>::new(cap, 1);
     let a: Vec<Fr> = (0..k1).map(|i| Fr::from(3 + i as u64)).collect();
@@ -281,9 +281,9 @@ fn mixed_case(k1: usize, k2: usize, alloc: bool, viol: Option<(usize, i64, usize
         c[i] = if sign >= 0 { c[i] + delta } else { c[i] - delta };
     }
     fn circuit<CS: RandomizableConstraintSystem<Fr>>(cs: &mut CS, av: &[Variable<Fr>], bv: &[Variable<Fr>], cv: &[Variable<Fr>], pv: Vec<(Variable<Fr>, Variable<Fr>)>,
-            alloc: bool, vals: Option<(Vec<Fr>, Vec<Fr>)>) -> Result<(), R1CSError> {
+            alloc: u8, vals: Option<(Vec<Fr>, Vec<Fr>)>) -> Result<(), R1CSError> {
         for i in 0..av.len() {
-            let o = if alloc {
+            let o = if alloc >= 1 {
                 let l = cs.allocate(vals.as_ref().map(|v| v.0[i]))?;
                 let r = cs.allocate(vals.as_ref().map(|v| v.1[i]))?;
                 cs.constrain(l - av[i]); cs.constrain(r - bv[i]);
@@ -292,6 +292,11 @@ fn mixed_case(k1: usize, k2: usize, alloc: bool, viol: Option<(usize, i64, usize
                 o
             } else { cs.multiply(av[i].into(), bv[i].into()).2 };
             cs.constrain(o - cv[i]);
+        }
+        if alloc == 2 {
+            // an odd number of single allocations: one multiplier stays half-assigned when the first phase closes
+            let l = cs.allocate(vals.as_ref().map(|_| Fr::from(7u64)))?;
+            cs.constrain(l - Fr::from(7u64));
         }
         if !pv.is_empty() {
             cs.specify_randomized_constraints(move |cs| { let _ = cs.challenge_scalar(b"z"); for (p, q) in pv.iter() { cs.multiply((*p).into(), (*q).into()); } Ok(()) })?;
@@ -322,19 +327,19 @@ fn mixed_case(k1: usize, k2: usize, alloc: bool, viol: Option<(usize, i64, usize
 }
 fn c01(replay: Option<(usize, usize, usize)>) -> (bool, String, String) {
     let run = |k1: usize, k2: usize, al: usize| -> Option<String> {
-        match catch_unwind(AssertUnwindSafe(|| mixed_case(k1, k2, al == 1, None, 32))) {
+        match catch_unwind(AssertUnwindSafe(|| mixed_case(k1, k2, al as u8, None, 32))) {
             Err(_) => Some(format!("panic while proving/verifying an honest circuit k1={} k2={} allocate={}", k1, k2, al)),
             Ok(Err(e)) => Some(format!("honest circuit k1={} k2={} allocate={}: {}", k1, k2, al, e)),
             Ok(Ok(false)) => Some(format!("honest proof of a satisfied circuit rejected: k1={} first-phase gates, k2={} second-phase gates, allocate={}", k1, k2, al)),
             Ok(Ok(true)) => None } };
     if let Some((a, b, c)) = replay { return match run(a, b, c) { Some(m) => (true, format!("[{},{},{}]", a, b, c), m), None => (false, format!("[{},{},{}]", a, b, c), "ok".into()) }; }
-    for k1 in 0..=4 { for k2 in 0..=3 { for al in 0..=1 { if let Some(m) = run(k1, k2, al) { return (true, format!("[{},{},{}]", k1, k2, al), m); } } } }
-    (false, "null".into(), "honest proofs for k1 in 0..4 first-phase x k2 in 0..3 second-phase gates, multiply and allocate styles".into())
+    for k1 in 0..=4 { for k2 in 0..=3 { for al in 0..=2 { if let Some(m) = run(k1, k2, al) { return (true, format!("[{},{},{}]", k1, k2, al), m); } } } }
+    (false, "null".into(), "honest proofs for k1 in 0..4 first-phase x k2 in 0..3 second-phase gates, multiply, allocate-pair and odd-allocate styles".into())
 }
 fn c02(replay: Option<(usize, usize, usize, usize, usize)>) -> (bool, String, String) {
     let run = |k1: usize, k2: usize, i: usize, sg: usize, j: usize| -> Option<String> {
         let jj = if j == 99 { usize::MAX } else { j };
-        match catch_unwind(AssertUnwindSafe(|| mixed_case(k1, k2, false, Some((i, if sg == 1 { 1 } else { -1 }, jj)), 32))) {
+        match catch_unwind(AssertUnwindSafe(|| mixed_case(k1, k2, 0, Some((i, if sg == 1 { 1 } else { -1 }, jj)), 32))) {
             Ok(Ok(true)) => Some(format!("violated constraint ACCEPTED: k1={} k2={}: c_{} is off by {}{}", k1, k2, i, if sg == 1 { "+" } else { "-" }, if j == 99 { "1".to_string() } else { format!("output of gate {}", j) })),
             _ => None } };
     if let Some((a, b, c, d, e)) = replay { return match run(a, b, c, d, e) { Some(m) => (true, format!("[{},{},{},{},{}]", a, b, c, d, e), m), None => (false, format!("[{},{},{},{},{}]", a, b, c, d, e), "rejected".into()) }; }
